@@ -104,7 +104,8 @@ def tus(tier, seed, section=None):
 
 # ======================================================================================================================
 # C01w: + - * and unary minus of scaled_integer over overflow_integer<built-in> (every tag), over
-# overflow_integer<elastic_integer>, and over elastic_integer combined with built-in integers (C01 only)
+# overflow_integer<elastic_integer>, over elastic_integer combined with built-in integers, over multi-word wide_integer
+# (radix 10 / 3 / 5 / 2, different exponents), and with a cnl::constant<V> operand on either side (C01 only)
 # ======================================================================================================================
 W_TAGS = {'nat': 'cnl::native_overflow_tag', 'sat': 'cnl::saturated_overflow_tag', 'thr': 'cnl::_impl::throwing_overflow_tag',
           'trp': 'cnl::trapping_overflow_tag', 'und': 'cnl::undefined_overflow_tag'}
@@ -212,6 +213,52 @@ def c01w_mixed_grid(tier, seed):
     return out
 
 
+def _w_limbs(d, n):
+    return (d + (1 if n[0] == 'i' else 0) + int(n[1:]) - 1) // int(n[1:])
+
+
+def c01w_wide_grid(tier, seed):
+    """(digits, narrowest, exponent, digits, narrowest, exponent, radix): scaled_integer over MULTI-WORD wide_integer (more than
+    127 / 128 digits); both operands have the same narrowest type and limb count (the digits may differ); radix 10, 3, 5 and 2
+    (signed), radix 2 (unsigned)"""
+    out = [(200, 'i32', -2, 200, 'i32', -4, 10), (300, 'i64', -1, 260, 'i64', -3, 10), (200, 'u32', 3, 200, 'u32', -4, 2),
+           (200, 'i32', -4, 200, 'i32', -4, 10), (150, 'i64', 0, 180, 'i64', -5, 3), (130, 'i16', 2, 140, 'i16', -1, 10),
+           (128, 'i32', -6, 128, 'i32', -3, 2), (129, 'u64', 1, 140, 'u64', -2, 2)]
+    rnd = random.Random(seed * 3571 + 29)
+    n = len(out) + (4 if tier == 'quick' else 40)
+    while len(out) < n:
+        nw = rnd.choice(['i32', 'u32', 'i64', 'u64', 'i32', 'i64', 'u16', 'i8'])
+        lo = 128 if nw[0] == 'i' else 129
+        dl = rnd.choice([lo, lo + 1, 160, 191, 192, 200, 255, 256, 300, 400])
+        cand = [d for d in range(lo, 420) if _w_limbs(d, nw) == _w_limbs(dl, nw)]
+        dr = rnd.choice([dl, rnd.choice(cand)])
+        # (an unsigned multi-word representation has no power_value for a radix other than 2: its product with the int radix
+        # is a signed wide_integer, and the conversion back does not compile)
+        rx = rnd.choice([10, 10, 3, 2, 5]) if nw[0] == 'i' else 2
+        el = rnd.randint(-6, 4)
+        er = el + rnd.choice([0, 1, -1, 2, -3, 5, -7] if rx != 2 else [0, 1, -3, 17, -40, 64, -100])
+        c = (dl, nw, el, dr, nw, er, rx)
+        if c not in out and rx ** abs(el - er) < 2 ** (min(dl, dr) - 3):
+            out.append(c)
+    return out
+
+
+def c01w_const_grid(tier, seed):
+    """(rep, exponent) and (digits, narrowest, exponent): the scaled_integer next to a cnl::constant<V> operand (the constants are
+    the fixed list C01W_CONSTS of the header: both signs, trailing zero bits, beyond 31 digits); every built-in representation"""
+    b = [('u8', -4), ('u16', -8), ('u32', -4), ('u64', 0), ('i16', 2), ('i8', -3), ('i32', -16), ('i64', -10), ('u8', 0), ('u16', 3)]
+    e = [(10, 'u32', -4), (8, 'u8', 0), (16, 'u16', -8), (24, 'u32', 3), (40, 'u64', -2), (12, 'i16', -4), (31, 'i32', 0)]
+    rnd = random.Random(seed * 4219 + 5)
+    for _ in range(2 if tier == 'quick' else 24):
+        c = (rnd.choice(list(ECT)), rnd.randint(-20, 8))
+        if c not in b:
+            b.append(c)
+        c = (rnd.choice([3, 7, 8, 15, 16, 20, 31, 32, 33, 48]), rnd.choice([t for t in ECT if t[0] == 'u'] + ['i32']), rnd.randint(-12, 6))
+        if c not in e:
+            e.append(c)
+    return b, e
+
+
 def c01w_tus(tier, seed):
     whdr = os.path.join(os.path.dirname(os.path.abspath(__file__)), 'C01w.h')
     res = []
@@ -233,6 +280,11 @@ def c01w_tus(tier, seed):
          ['oego<%s, %d, %s, %d, %d, %s, %d>' % (W_TAGS[tg], dl, ECT[nl], el, dr, ECT[nr], er) for (tg, dl, nl, el, dr, nr, er) in c01w_safe_grid(tier, seed)], 3)
     emit('mixed', 'SEC_C01WEB', 9600,
          ['ebgo<%d, %s, %d, %s>' % (d, ECT[nl], e, ECT[t]) for (d, nl, e, t) in c01w_mixed_grid(tier, seed)], 4)
+    emit('wide', 'SEC_C01WW', 9800,
+         ['wwgo<%d, %s, %d, %d, %s, %d, %d>' % (dl, ECT[nl], el, dr, ECT[nr], er, rx) for (dl, nl, el, dr, nr, er, rx) in c01w_wide_grid(tier, seed)], 3)
+    cb, ce = c01w_const_grid(tier, seed)
+    emit('const', 'SEC_C01WC', 10000, ['cgo<%s, %d>' % (ECT[t], e) for (t, e) in cb], 3)
+    emit('conste', 'SEC_C01WC', 10200, ['cego<%d, %s, %d>' % (d, ECT[n], e) for (d, n, e) in ce], 3)
     return res
 
 
